@@ -23,8 +23,10 @@ def nat(n):
 # 1014 wrapped context.Canceled, 1015 a typed nil of channel kind, 1016 the zero value of the struct error, 1017 errors.New(""),
 # 1018 a second non-nil *ptrErr.  The same codes are panic values (panic(err)); panic codes 2000 = panic(nil) (a
 # *runtime.PanicNilError since go 1.21), 2001 = a string, 0 = the zero userPanic.  Results are recognised by IDENTITY (==).
-SENTINELS = list(range(1001, 1019))
-TYPED_NILS = (1011, 1015)
+# 1019 a non-nil map error, 1020 a nil map error (typed nil of map kind), 1021 a slice error, 1022 a func error: NON-COMPARABLE dynamic
+# types (== on two of them panics at run time; the harness compares by reflect pointer)
+SENTINELS = list(range(1001, 1023))
+TYPED_NILS = (1011, 1015, 1020)
 PANIC_CODES = SENTINELS + [2000, 2001, 0]
 NOOUTPUT_CODES = (1002, 1005)
 
@@ -438,13 +440,16 @@ class C10(Property):
             atomic_case([["conc", [1011, 1008, None, 1018]], ["load"], ["conc", [None, None]], ["load"], ["conc", [1011]], ["load"]]),
             atomic_case([["conc", [None, None, None]], ["load"], ["conc", [3, 4, 5, None]], ["set", None], ["load"]]),
             atomic_case([["set", 1013], ["load"], ["conc", [1013, None]], ["load"]]),
+            atomic_case([["set", 1020], ["load"], ["set", 1019], ["load"], ["conc", [1019, 1020, None]], ["load"], ["set", 1021], ["load"]]),
+            atomic_case([["conc", [1021, None]], ["load"], ["set", 1021], ["load"]]),
+            atomic_case([["set", 1008], ["conc", [1011, 1018, 1008]], ["load"], ["conc", [1018, 1011]], ["load"]]),
         ] + [atomic_case([["set", k], ["load"], ["set", None], ["load"]]) for k in SENTINELS]
         return res
 
     def _atomic(self, rng):
         """A random Set / Load / concurrent-Set history on one AtomicError; mostly one concrete type (no sync/atomic panic),
         sometimes mixed."""
-        groups = [[1008, 1011, 1018], [1012, 1016], [1001, 1002, 1003, 1007, 1009, 1017], [1005, 1006, 1010, 1014], [1, 2, 3, 0], [1015],
+        groups = [[1008, 1011, 1018], [1019, 1020], [1021], [1022], [1012, 1016], [1001, 1002, 1003, 1007, 1009, 1017], [1005, 1006, 1010, 1014], [1, 2, 3, 0], [1015],
                   [1013], [1004]]
         g = rng.choice(groups)
         mixed = rng.random() < 0.25
@@ -921,7 +926,8 @@ class C10(Property):
             elif op[0] == "load":
                 res.append("ALoad %s" % self._goerr(ob[1]))
             else:
-                res.append("AConc %s %s %s" % (clist([self._goerr(v) for v in op[1]]), p, self._goerr(ob[1])))
+                res.append("AConc %s %s %s %s" % (clist([self._goerr(v) for v in op[1]]), clist([self._goerr(v) for v in (ob[2] if len(ob) > 2 else [])]),
+                                                  p, self._goerr(ob[1])))
         return clist(res)
 
     def coq_case(self, case, obs):
